@@ -15,6 +15,8 @@ import SwimVerif.Model.EpochQueue
 import SwimVerif.Model.MapLane
 import SwimVerif.Proofs.EpochQueueRun
 import SwimVerif.Proofs.MapLaneTakeDrop
+import SwimVerif.Proofs.MapCompose
+import SwimVerif.Proofs.EpochQueueCompose
 
 set_option linter.unusedVariables false
 namespace SwimVerif.WT
@@ -116,6 +118,69 @@ theorem C02_take_drop_spec :
       (ML.step (ML.run {} ops) (.takeFirst n)).1.content = (ML.run {} ops).content.take n :=
   fun ops n => ⟨ML.dropFirst_content _ n (C02_map_sorted ops), ML.takeFirst_content _ n (C02_map_sorted ops)⟩
 
+/-! ### Second tier: per-key sampling, both indexed queues against the specification queue, composition -/
+
+/-- **Per-key sampling (runtime queue)**: for every key `k` and every interleaving of pushes and pops, the operations
+that concern `k` (updates / removes of `k`, and every `clear`) that were popped, followed by those still queued, are a
+sub-sequence of those pushed: nothing is duplicated, reordered or invented; only superseded operations are skipped.
+With `C02_runtime_queue_preserves_fold` (the final state is never skipped) the values a remote sees for `k` are a
+monotone sampling of `k`'s history. -/
+theorem C02_runtime_per_key_sampled (ops : List MQOp) (k : Nat) :
+    ((mqRun {} ops).popped.filter (touches k) ++ (mqRun {} ops).queue.filter (touches k)).Sublist
+      ((mqRun {} ops).pushed.filter (touches k)) :=
+  sampled_run k ops {} wfq_nil (sampled_init k)
+
+/-- **The runtime's indexed queue is the specification queue**: the faithful model of `MapOperationQueue` (wrapping
+epochs, any initial `head_epoch`), together with everything pushed into it and popped from it, is — entry for entry —
+the specification system `mqRun` on which the convergence theorems are proved. -/
+theorem C02_runtime_indexed_queue_refines (h : Nat) (hh : h < EQV.M64) (ops : List EQV.Op)
+    (hb : ∀ n, (EQV.specRun [] (ops.take n)).length + 1 < EQV.M64) :
+    EQV.abs EQV.entryOp (EQV.sysRun { q := { head := h } } ops) = mqRun {} (ops.map (EQV.opMap EQV.entryOp)) :=
+  EQV.sys_run_refines EQV.entryOp EQV.entryOp_key rfl ops { q := { head := h } } (EQV.inv_empty hh) hb
+
+/-- …hence the indexed runtime queue itself preserves the fold and samples every key monotonically. -/
+theorem C02_runtime_indexed_queue_preserves_fold (h : Nat) (hh : h < EQV.M64) (ops : List EQV.Op)
+    (hb : ∀ n, (EQV.specRun [] (ops.take n)).length + 1 < EQV.M64) (m : KMap) (k : Nat) :
+    let s := EQV.sysRun { q := { head := h } } ops
+    applyAll m (s.popped.map EQV.entryOp ++ s.q.events.map EQV.entryOp) = applyAll m (s.pushed.map EQV.entryOp) ∧
+    ((s.popped.map EQV.entryOp).filter (touches k) ++ (s.q.events.map EQV.entryOp).filter (touches k)).Sublist
+      ((s.pushed.map EQV.entryOp).filter (touches k)) := by
+  intro s
+  have hr := C02_runtime_indexed_queue_refines h hh ops hb
+  have h1 := C02_runtime_queue_preserves_fold m (ops.map (EQV.opMap EQV.entryOp))
+  have h2 := C02_runtime_per_key_sampled (ops.map (EQV.opMap EQV.entryOp)) k
+  rw [← hr] at h1 h2
+  exact ⟨h1, h2⟩
+
+/-- **The agent's indexed event queue is the specification queue** on key-only operations (`EventQueue<K, ()>` as
+modelled inside `Model/MapLane.lean`), for every run of fewer than 2^64 - 1 operations. -/
+theorem C02_agent_indexed_queue_refines (ops : List ML.EQOp) (hlen : ops.length + 1 < EQV.M64) :
+    ML.absA (ML.eqRun {} ops) = mqRun {} (ops.map ML.opA) := ML.agent_run_refines ops hlen
+
+/-- **Composition of the two layers**: the agent's key-only event queue (values read when an event is written)
+feeding the runtime's per-remote operation queue feeding the remote. For every interleaving of lane operations, event
+writes and deliveries: whenever both queues are empty, the remote's replica is the lane's map. -/
+theorem C02_compose (ops : List COp) (ha : (cRun {} ops).a.queue = []) (hr : (cRun {} ops).rt.queue = []) :
+    (cRun {} ops).remote = (cRun {} ops).a.content :=
+  cinv_converged (cinv_run ops {} cinv_init) ha hr
+
+/-- …in between, the remote brought up to date with what the runtime still holds for it is the agent-side observer's
+replica (which `C02_agent_queue_invariant` relates to the lane's map), and what the remote has received about any key
+is a sub-sequence of what the agent emitted about it. -/
+theorem C02_compose_invariant (ops : List COp) (k : Nat) :
+    applyAll (cRun {} ops).remote (cRun {} ops).rt.queue = (cRun {} ops).a.rep ∧ AInv (cRun {} ops).a ∧
+    ((cRun {} ops).rt.popped.filter (touches k) ++ (cRun {} ops).rt.queue.filter (touches k)).Sublist
+      ((cRun {} ops).rt.pushed.filter (touches k)) :=
+  ⟨cinv_remote_catches_up (cinv_run ops {} cinv_init), (cinv_run ops {} cinv_init).agent,
+   csampled_run k ops {} cinv_init (sampled_init k)⟩
+
+/-- what the agent emits is current: an emitted update carries the value the lane holds for the key at that moment,
+and a remove is emitted only while the lane's map lacks the key -/
+theorem C02_agent_emits_current (ops : List AOp) (k : Nat) :
+    (∀ v, emitOf (aRun {} ops) = some (.upd k v) → (aRun {} ops).content k = some v) ∧
+    (emitOf (aRun {} ops) = some (.rem k) → (aRun {} ops).content k = none) :=
+  ⟨fun v h => emitOf_upd_current h, fun h => emitOf_rem_absent (C02_agent_queue_invariant ops) h⟩
+
 /-! Non-vacuity -/
 example : (mqRun {} [.push (.upd 1 [1]), .push (.upd 2 [2]), .push (.upd 1 [3]), .pop]).popped = [.upd 1 [3]] := by
   decide
@@ -131,6 +196,17 @@ example : (exQ.push (.upd 2 21)).events = [.upd 1 10, .upd 2 21] ∧ exQ.pop.2.h
     (exQ.pop.2.push (.upd 2 22)).events = [.upd 2 22] := by decide
 example : EQV.specRun [] [.push (.upd 1 1), .push (.upd 2 2), .push (.upd 1 3), .pop, .push .clear] = [.clear] := by
   decide
+example : EQV.abs EQV.entryOp (EQV.sysRun { q := { head := EQV.M64 - 1 } }
+      [.push (.upd 1 1), .push (.upd 2 2), .push (.upd 1 3), .pop]) =
+    { queue := [.upd 2 [2]], pushed := [.upd 1 [1], .upd 2 [2], .upd 1 [3]], popped := [.upd 1 [3]] } := by rfl
+example : ML.absA (ML.eqRun {} [.push (.upd 1), .push (.upd 2), .push (.rem 1), .pop]) =
+    { queue := [.upd 2 []], pushed := [.upd 1 [], .upd 2 [], .rem 1], popped := [.rem 1] } := by rfl
+/-- compose: update, emit, update again (coalesced in the runtime queue), emit, deliver -/
+example : (cRun {} [.lane (.update 1 [1]), .lane .pop, .lane (.update 1 [2]), .lane .pop, .deliver]).rt.popped =
+      [.upd 1 [2]] ∧
+    (cRun {} [.lane (.update 1 [1]), .lane .pop, .lane (.update 1 [2]), .lane .pop, .deliver]).rt.queue = [] ∧
+    (cRun {} [.lane (.update 1 [1]), .lane .pop, .lane (.update 1 [2]), .lane .pop, .deliver]).a.queue = [] := by decide
+example : emitOf (aRun {} [.update 1 [1], .update 1 [2]]) = some (.upd 1 [2]) := by decide
 /-- take / drop on a non-trivial map -/
 example : (ML.run {} [.update 5 1, .update 2 1, .update 9 1, .update 2 7]).content = [(2, 7), (5, 1), (9, 1)] ∧
     (ML.step (ML.run {} [.update 5 1, .update 2 1, .update 9 1]) (.dropFirst 2)).1.content = [(9, 1)] ∧
